@@ -84,13 +84,13 @@ package encoder
 //@   modifies $wlen, $wbuf, $wfail
 //@   ensures !encOK(val, enc.Opts) ==> (err != nil && $wlen == old($wlen) && $wfail == old($wfail))
 //@   ensures (len(enc.indent) == 0 && len(enc.prefix) == 0 && err == nil) ==> $wlen == old($wlen) + len(encOut(val, enc.Opts)) + ite(enc.Opts & NoEncoderNewline == 0, 1, 0)
-//@   ensures (len(enc.indent) == 0 && len(enc.prefix) == 0 && err == nil) ==> (forall k int :: 0 <= k && k < len(encOut(val, enc.Opts)) ==> $wbuf[old($wlen) + k] == encOut(val, enc.Opts)[k])
+//@   ensures (len(enc.indent) == 0 && len(enc.prefix) == 0 && err == nil) ==> (forall j int :: old($wlen) <= j && j < old($wlen) + len(encOut(val, enc.Opts)) ==> $wbuf[j] == encOut(val, enc.Opts)[j - old($wlen)])
 //@   ensures (len(enc.indent) == 0 && len(enc.prefix) == 0 && err == nil && enc.Opts & NoEncoderNewline == 0) ==> $wbuf[old($wlen) + len(encOut(val, enc.Opts))] == 10
 //@   ensures forall k int :: 0 <= k && k < old($wlen) ==> $wbuf[k] == old($wbuf[k])
 //@   ensures err == nil ==> $wfail == old($wfail)
 //@   loop 0: invariant err == nil && $wfail == old($wfail) && out != nil && len(buf) <= len(*out) && base(buf) == base(*out) && off(buf) == off(*out) + len(*out) - len(buf)
 //@   loop 0: invariant encOK(val, enc.Opts) && len(*out) == len(encOut(val, enc.Opts)) && $wlen == old($wlen) + len(*out) - len(buf)
 //@   loop 0: invariant forall k int :: 0 <= k && k < len(*out) ==> (*out)[k] == encOut(val, enc.Opts)[k]
-//@   loop 0: invariant forall k int :: 0 <= k && k < len(*out) - len(buf) ==> $wbuf[old($wlen) + k] == (*out)[k]
+//@   loop 0: invariant forall j int :: old($wlen) <= j && j < $wlen ==> $wbuf[j] == (*out)[j - old($wlen)]
 //@   loop 0: invariant forall k int :: 0 <= k && k < old($wlen) ==> $wbuf[k] == old($wbuf[k])
 //@   loop 0: decreases len(buf)
